@@ -59,8 +59,10 @@ func New(config ...Config) fiber.Handler {
 	trustedSubOrigins := []subdomain{}
 
 	for _, origin := range cfg.TrustedOrigins {
+		// the wildcard is located in the entry the offsets below are applied to: the trimmed one
+		origin = utils.Trim(origin, ' ')
 		if i := strings.Index(origin, "://*."); i != -1 {
-			trimmedOrigin := utils.Trim(origin[:i+3]+origin[i+4:], ' ')
+			trimmedOrigin := origin[:i+3] + origin[i+4:]
 			isValid, normalizedOrigin := normalizeOrigin(trimmedOrigin)
 			if !isValid {
 				panic("[CSRF] Invalid origin format in configuration:" + origin)
